@@ -24,32 +24,69 @@ from lib import core
 from lib.core import f2bits, bits2f
 
 DRIVER = "drv_soln"
+LEAN_TARGETS = ["OmplModel.Props.C04", DRIVER]
 INF = float("inf")
 TOL = 1e-9
 
-# planner -> (termination-condition evaluations per solve, defers cost propagation?, accepts any objective?)
+# planner -> (termination-condition evaluations per solve, accepts any objective?)
 PLANNERS = {
-    "RRTstar": (3000, False, True),
-    "InformedRRTstar": (3000, False, True),
-    "SORRTstar": (3000, False, True),
-    "RRTsharp": (3000, True, True),        # epsilon-consistent propagation: stored cost may lag (be worse)
-    "RRTXstatic": (3000, True, True),      # same
-    "BITstar": (3000, False, True),
-    "ABITstar": (3000, False, True),
-    "AITstar": (3000, False, True),
-    "EITstar": (3000, False, True),
-    "EIRMstar": (3000, False, True),
-    "PRMstar": (3000, False, True),
-    "LazyPRMstar": (1500, False, True),
-    "FMT": (3000, False, True),
-    "BFMT": (3000, False, True),
-    "LBTRRT": (1500, False, False),
-    "LazyLBTRRT": (2000, False, False),
-    "SST": (20000, False, True),
-    "TRRT": (3000, False, True),
-    "CForest": (3000, False, False),
-    "AnytimePathShortening": (30000, False, False),
+    "RRTstar": (3000, True),
+    "InformedRRTstar": (3000, True),
+    "SORRTstar": (3000, True),
+    "RRTsharp": (3000, True),
+    "RRTXstatic": (3000, True),
+    "BITstar": (3000, True),
+    "ABITstar": (3000, True),
+    "AITstar": (3000, True),
+    "EITstar": (3000, True),
+    "EIRMstar": (3000, True),
+    "PRMstar": (3000, True),
+    "LazyPRMstar": (1500, True),
+    "FMT": (3000, True),
+    "BFMT": (3000, True),
+    "LBTRRT": (1500, False),
+    "LazyLBTRRT": (2000, False),
+    "SST": (20000, True),
+    "TRRT": (3000, True),
+    "CForest": (3000, False),
+    "AnytimePathShortening": (30000, False),
 }
+
+# Planners held to EQUALITY: whenever a solution carries a stored cost, |stored - recomputed| <= 1e-9
+# relative and the stored cost is finite whenever the recomputed cost is (exact *and* approximate
+# solutions).  Measured on the unchanged tree (quick generator at seeds 0-9 + thorough at seed 0): it
+# held on every explored run of every planner listed here.  The value is the reason read off the code.
+EQUALITY = {
+    "RRTstar": "Motion::cost is propagated eagerly (updateChildCosts on every rewire); solve() stores newSolution->cost, the reported motion's own cost",
+    "InformedRRTstar": "RRTstar code with informed sampling / pruning",
+    "SORRTstar": "RRTstar code with ordered sampling",
+    "CForest": "its solutions are added by RRTstar instances (shared paths are inserted with recomputed costs)",
+    "BITstar": "Vertex::cost_ is updated through updateCostAndDepth (cascading) at every rewiring; bestCost_ is the goal vertex' cost when the path is extracted",
+    "ABITstar": "BITstar code (inflation/truncation only reorder the queue)",
+    "AITstar": "forward-search cost-to-come is propagated to the whole branch (updateCostOfForwardBranch) before the goal's cost is stored; approximate solutions store the cost-to-come of the reported vertex",
+    "EITstar": "forward tree costs are updated for the whole subtree on rewiring (updateCurrentCostToCome of children); stores goal->getCurrentCostToCome()",
+    "EIRMstar": "EITstar code (multi-query bookkeeping only)",
+    "PRMstar": "stores cost() of the very path it reports (since fix 83d93c672)",
+    "LazyPRMstar": "bestSolution and bestCost_ = solution->cost(opt_) are assigned together",
+    # the following report addSolutionPath(path, ...) without setOptimized: no stored cost today (they are
+    # ranked by length_, which is checked against path->length()); equality is demanded should they ever store one
+    "FMT": "stores no cost (addSolutionPath(path, false, -1.0, name))",
+    "BFMT": "stores no cost",
+    "SST": "stores no cost",
+    "TRRT": "stores no cost",
+    "LBTRRT": "stores no cost (its bestCost_/costApx_ bound bookkeeping never reaches the PlannerSolution)",
+    "LazyLBTRRT": "stores no cost",
+    "AnytimePathShortening": "stores no cost (adds the simplified / hybridized paths as plain paths)",
+}
+# Planners NOT held to equality (only "stored never better than recomputed"), with the reason:
+NOT_EQUAL = {
+    "RRTsharp": "RRTXstatic code with epsilon = 0 ... but cost changes travel through a priority queue that solve() drains only partly per iteration, "
+                "so a reported vertex' cost can lag (be worse); approximate solutions are stored with the incumbent bestCost_ (= infinity)",
+    "RRTXstatic": "epsilon-consistency: cost decreases below epsilon are deliberately not propagated (stored cost lags = worse); approximate "
+                  "solutions are stored with the incumbent bestCost_ (= infinity)",
+}
+assert set(EQUALITY) | set(NOT_EQUAL) == set(PLANNERS) and not set(EQUALITY) & set(NOT_EQUAL)
+
 OBJ_KINDS_RUN = ["sci", "scii", "minimax", "clear", "work", "multi"]
 MAXIMIZING = {"clear"}
 
@@ -536,10 +573,11 @@ def oracle_run(job, lines):
     """per-run oracle.  returns (list of (kind, what), stats dict)."""
     planner, kind = job["planner"], job["obj"]
     better = (lambda a, b: a > b) if kind in MAXIMIZING else (lambda a, b: a < b)
-    defer = PLANNERS[planner][1]
+    defer = planner not in EQUALITY
     fails = []
     stats = {"solutions": 0, "stored": 0, "unstored": 0, "approx": 0, "optimized": 0, "snapshots": 0, "solves": 0,
-             "mixed_sets": 0, "stored_worse": 0, "ended": False, "endpoint_mismatch": 0, "maxsols": 0}
+             "mixed_sets": 0, "stored_worse": 0, "ended": False, "endpoint_mismatch": 0, "maxsols": 0, "stored_equal": 0,
+             "stored_inf_deferred": 0, "approx_stored": 0, "clears": 0, "regress_after_clear": 0, "approx_only_solves": 0}
     if not lines or not lines[0].startswith("run "):
         return [("crash", "no output from the run")], stats, []
     hdr = parse_flags(lines[0])
@@ -547,6 +585,7 @@ def oracle_run(job, lines):
     qbound = bits2f(hdr["qbound"])
     det = {}
     prev_top = None
+    before_clear = None
     orders = []
     for ln in lines[1:]:
         if ln == "end":
@@ -554,6 +593,12 @@ def oracle_run(job, lines):
             continue
         if ln.startswith("error "):
             fails.append(("exception", ln))
+            continue
+        if ln.startswith("clear "):
+            # the user dropped all solutions (clearSolutionPaths()); indices restart at 0
+            stats["clears"] += 1
+            det = {}
+            before_clear, prev_top = prev_top, None
             continue
         head, _, newpart = ln.partition(" new=")
         f = parse_flags(head)
@@ -596,18 +641,27 @@ def oracle_run(job, lines):
                 stats["stored"] += 1
                 if d.objid != "same":
                     fails.append(("objective", "solution %d carries an objective that is not the problem's" % r.idx))
+                if r.approx:
+                    stats["approx_stored"] += 1
                 infinite = (r.cost == -INF) if kind in MAXIMIZING else (r.cost == INF)
-                if infinite and not math.isinf(d.true):
-                    # reported with the objective's infiniteCost() although the path has a finite cost
-                    fails.append(("stored-infinite", "stored cost is the infinite cost %r although the reported path costs %r (optimized_=%s) (%s)" %
-                                  (r.cost, d.true, r.opt, d.text)))
-                    continue
-                if not not_better_tol(better, r.cost, d.true):
+                if math.isnan(r.cost):
+                    fails.append(("stored-nan", "stored cost is NaN (%s)" % d.text))
+                elif infinite and not math.isinf(d.true):
+                    # reported with the objective's infiniteCost() although the path has a finite cost:
+                    # not "better", but for a planner held to equality the stored cost must be the path's
+                    if defer:
+                        stats["stored_inf_deferred"] += 1
+                    else:
+                        fails.append(("stored-infinite-approx" if r.approx else "stored-infinite", "stored cost is the infinite cost %r although the reported %s path costs %r and %s is held to "
+                                      "equality (optimized_=%s) (%s)" % (r.cost, "approximate" if r.approx else "exact", d.true, planner, r.opt, d.text)))
+                elif not not_better_tol(better, r.cost, d.true):
                     fails.append(("stored-better", "stored cost %r is better than the true cost %r of the reported path (%s)" % (r.cost, d.true, d.text)))
                 elif not close(r.cost, d.true, TOL):
                     stats["stored_worse"] += 1
                     if not defer:
-                        fails.append(("stored-worse", "stored cost %r is worse than the true cost %r although %s does not defer cost propagation (%s)" % (r.cost, d.true, planner, d.text)))
+                        fails.append(("stored-worse", "stored cost %r is worse than the true cost %r although %s is held to equality (%s)" % (r.cost, d.true, planner, d.text)))
+                else:
+                    stats["stored_equal"] += 1
                 sat = better(r.cost, thr)
                 if d.isat != sat:
                     fails.append(("isSatisfied", "isSatisfied(%r) = %s with threshold %r" % (r.cost, d.isat, thr)))
@@ -643,6 +697,14 @@ def oracle_run(job, lines):
             for kk, v in exp.items():
                 if f.get(kk) != v:
                     fails.append(("accessor", "accessor %s=%s but the top solution says %s" % (kk, f.get(kk), v)))
+            if recs and all(r.approx for r in recs):
+                stats["approx_only_solves"] += 1
+            if recs and before_clear is not None:
+                # first solve after clearSolutionPaths(): counted, not demanded (a planner may legitimately
+                # not re-register its incumbent, or re-register a worse goal first)
+                if spec_lt(better, before_clear, recs[0]):
+                    stats["regress_after_clear"] += 1
+                before_clear = None
             if recs:
                 top = recs[0]
                 if prev_top is not None:
@@ -657,12 +719,19 @@ def oracle_run(job, lines):
     return fails, stats, orders
 
 
+INFORMED_TREES = ["BITstar", "ABITstar", "AITstar", "EITstar", "EIRMstar"]
+
+
 def make_jobs(ck, rng):
     jobs = []
     nrep = 1 if ck.tier == "quick" else 6
     g_small = f2bits(0.05)
+
+    def job(planner, obj, field, thr, env, dim, seed, evals, solves, gthr, clear=0):
+        jobs.append({"planner": planner, "obj": obj, "field": field, "thr": thr, "env": env, "dim": dim, "seed": seed, "evals": evals,
+                     "solves": solves, "gthr": gthr, "clear": clear})
     for rep in range(nrep):
-        for planner, (evals, _defer, general) in PLANNERS.items():
+        for planner, (evals, general) in PLANNERS.items():
             r = rng.fork("job-%s-%d" % (planner, rep))
             envs = [0, 1, 2, 3, 4]
             r.shuffle(envs)
@@ -672,24 +741,35 @@ def make_jobs(ck, rng):
                 gthr = r.choice([0.05, 0.05, 0.1, 0.02])
                 q = max(math.sqrt(dim * 0.64) - gthr, 0.0)
                 t = thr if thr != "fin" else f2bits(q * r.choice([1.05, 1.2, 1.5, 2.5]))
-                jobs.append({"planner": planner, "obj": "len", "field": 0, "thr": t, "env": envs[j], "dim": dim, "seed": r.range(1, 10 ** 6),
-                             "evals": evals, "solves": r.choice([2, 2, 3]) if j != 1 else r.choice([1, 2]), "gthr": f2bits(gthr)})
+                job(planner, "len", 0, t, envs[j], dim, r.range(1, 10 ** 6), evals, r.choice([2, 2, 3]) if j != 1 else r.choice([1, 2]), f2bits(gthr))
+            # runs that end WITHOUT an exact solution: (a) the goal is sealed inside walls (env 5), (b) a budget
+            # too small to get around the obstacles; approximate solutions' stored costs are judged like any other
+            job(planner, "len", 0, "def", 5, r.choice([2, 2, 3]), r.range(1, 10 ** 6), max(evals // 2, 800), 2, g_small, r.below(2))
+            job(planner, "len", 0, r.choice(["def", "inf"]), r.choice([2, 3]), 2, r.range(1, 10 ** 6), r.choice([40, 80, 150]) * (10 if evals >= 20000 else 1),
+                2, f2bits(0.02), 0)
+            # two goal states, the worse one listed first (env 7), continued solves with and without clearSolutionPaths()
+            job(planner, "len" if not general else r.choice(["len", "sci"]), 0, "def", 7, 2, r.range(1, 10 ** 6), max(evals // 3, 500), 3, g_small, rep % 2 if nrep > 1 else r.below(2))
             if general:
-                # a state-cost integral (field 1 + x^2: cost >= ~1.47 here, lengths 1.13-1.4) with a threshold between
+                job(planner, r.choice(["sci", "work", "multi", "minimax"]), r.range(1, 2), "def", 5, 2, r.range(1, 10 ** 6), max(evals // 2, 800), 2, g_small, r.below(2))
+                # a state-cost integral (field 1 + x^2: cost >= ~1.37 here, lengths 1.13-1.4) with a threshold between
                 # typical lengths and the optimal cost: separates "satisfied by the stored cost" from "by the length"
-                jobs.append({"planner": planner, "obj": "sci", "field": 1, "thr": f2bits(r.choice([1.25, 1.3, 1.35, 1.4])), "env": r.choice([0, 0, 1]),
-                             "dim": 2, "seed": r.range(1, 10 ** 6), "evals": max(evals // 2, 800), "solves": 2, "gthr": g_small})
+                job(planner, "sci", 1, f2bits(r.choice([1.25, 1.3, 1.35, 1.4])), r.choice([0, 0, 1]), 2, r.range(1, 10 ** 6), max(evals // 2, 800), 2, g_small)
                 kinds = [r.choice(OBJ_KINDS_RUN)] if ck.tier == "quick" else OBJ_KINDS_RUN
                 for kind in kinds:
                     thr = r.choice(["def", "def", "inf", f2bits(r.choice([0.05, 0.2, 1.0, 2.0, 4.0]))])
-                    jobs.append({"planner": planner, "obj": kind, "field": r.range(1, 2), "thr": thr, "env": r.choice([0, 1, 3, 4]), "dim": 2,
-                                 "seed": r.range(1, 10 ** 6), "evals": max(evals // 2, 800), "solves": 2, "gthr": g_small})
+                    job(planner, kind, r.range(1, 2), thr, r.choice([0, 1, 3, 4]), 2, r.range(1, 10 ** 6), max(evals // 2, 800), 2, g_small)
+            if planner in INFORMED_TREES or planner in ("RRTstar", "PRMstar", "LazyPRMstar"):
+                # the anytime pattern of tests/geometric/2d/*_optimize: many short slices of
+                # `clearSolutionPaths(); solve()`, two goal states, the better one behind a narrow window (env 6),
+                # an objective without admissible heuristic (unit state-cost integral: nothing is pruned)
+                job(planner, "sci", 0, "def", 6, 2, r.range(1, 10 ** 6), 500, 40 if ck.tier == "quick" else 80, f2bits(0.01), 1)
+                job(planner, "len", 0, "def", 6, 2, r.range(1, 10 ** 6), 500, 25, f2bits(0.01), 1)
     return jobs
 
 
 def job_line(j):
-    return "run %s %s %d %s %d %d %d %d %d %s" % (j["planner"], j["obj"], j["field"], j["thr"], j["env"], j["dim"], j["seed"], j["evals"],
-                                                   j["solves"], j["gthr"])
+    return "run %s %s %d %s %d %d %d %d %d %s %d" % (j["planner"], j["obj"], j["field"], j["thr"], j["env"], j["dim"], j["seed"], j["evals"],
+                                                      j["solves"], j["gthr"], j.get("clear", 0))
 
 
 RUN_ENV = {"ASAN_OPTIONS": "detect_leaks=0:abort_on_error=0:exitcode=99"}   # planner leaks are not C04's subject
@@ -713,6 +793,9 @@ def judge_runs(ck, hbin, jobs):
         ck.count("run:" + job["planner"])
         ck.count("run-obj:" + job["obj"])
         ck.count("run-thr:" + ("def" if job["thr"] == "def" else "inf" if job["thr"] == "inf" else "finite"))
+        ck.count("run-env:%d" % job["env"])
+        if job.get("clear"):
+            ck.count("run-with-clearSolutionPaths")
         if out is None:
             ck.count("run-timeout:" + job["planner"])
             ck.notes.append("run timed out (no verdict): " + job_line(job))
@@ -720,7 +803,8 @@ def judge_runs(ck, hbin, jobs):
             continue
         fails, stats, orders = oracle_run(job, out)
         ck.case(job_line(job), stats["solutions"] >= 1)
-        for k in ("solutions", "stored", "unstored", "approx", "optimized", "snapshots", "solves", "mixed_sets", "stored_worse", "endpoint_mismatch"):
+        for k in ("solutions", "stored", "unstored", "approx", "optimized", "snapshots", "solves", "mixed_sets", "stored_worse", "endpoint_mismatch",
+                  "stored_equal", "stored_inf_deferred", "approx_stored", "clears", "regress_after_clear", "approx_only_solves"):
             ck.count("run-" + k, stats[k])
         if stats["solutions"] == 0:
             ck.count("run-nosolution:" + job["planner"])
@@ -801,8 +885,8 @@ def run(ck):
                        "input_distribution; planner runs that abort on an internal assertion are counted, not judged beyond what they reported",
                        "IEEE rounding is executed (bit-compared with the model), not verified: the order/fold theorems are proved for "
                        "exact linear orders / ordered groups"]
-    ck.lean_build(["OmplModel.Props.C04", DRIVER])
-    ck.audit()
+    ck.lean_build(LEAN_TARGETS)
+    ck.audit(roots=["Drv.Soln"])
     if ck.tier == "thorough" and ck.lean_ok:
         ck.leanchecker(["OmplModel.Props.C04"])
     hbin = build(ck)
